@@ -39,9 +39,10 @@ META = {
 class Model:
     """rules of one betting round, history based."""
 
-    def __init__(self, st: Any) -> None:
+    def __init__(self, st: Any, doc: Any = None) -> None:
         self.n = st.player_count
-        self.structure = st.betting_structure
+        self.doc = doc
+        self.structure = BettingStructure(doc['structure']) if doc else st.betting_structure
         self.mode = st.mode
         self.sync(st)
 
@@ -54,6 +55,10 @@ class Model:
         street = st.street
         self.street_min = street.min_completion_betting_or_raising_amount
         self.cap = street.max_completion_betting_or_raising_count
+        if self.doc:
+            # C11: the DOCUMENTED structure of the variant, not what the state says
+            self.street_min = self.doc['bets'][st.street_index]
+            self.cap = self.doc['cap']
         self.max_raise = 0          # largest raise increment this round
         self.raises = 0
         self.acted: list = []       # players who acted since the last full raise
@@ -271,7 +276,7 @@ def compare(ctx: Any, st: Any, m: Model, tag: str, probe: bool = True) -> None:
 
 def h_betting(ctx: Any, code: str, n: int, depth: int, mode: str = 'T', script: str = '',
               part: Any = None, sym_blinds: bool = False, maxstack: int = MAXCHIP,
-              fixed: Any = None) -> None:
+              fixed: Any = None, doc: Any = None) -> None:
     C.native_hands()
     C.set_deck_order('identity')
     fixed = fixed or {}
@@ -301,7 +306,7 @@ def h_betting(ctx: Any, code: str, n: int, depth: int, mode: str = 'T', script: 
         if m is None or rid != round_id:
             if m is not None:
                 ctx.check(m.over, 'round-continues-though-everybody-responded', f'step {step}')
-            m = Model(st)
+            m = Model(st, doc)
             m.open(st.actor_index if True else 0)
             round_id = rid
             ctx.check(not m.over, 'round-offered-though-nobody-can-act', f'step {step}')
@@ -328,6 +333,25 @@ def h_betting(ctx: Any, code: str, n: int, depth: int, mode: str = 'T', script: 
                     C.call(ctx, st.post_bring_in)
                     m.do_bring_in()
         else:
+            if act == 'm':
+                # the minimum bet/raise, whatever the engine says it is (model checks the amount)
+                if st.can_complete_bet_or_raise_to():
+                    x = st.min_completion_betting_or_raising_to_amount
+                    C.call(ctx, st.complete_bet_or_raise_to)
+                    m.do_raise(x)
+                    ctx.cover('raised')
+                else:
+                    C.call(ctx, st.check_or_call)
+                    m.do_call()
+                step += 1
+                same_round = (st.status and st.actor_index is not None and
+                              (st.street_index, len([o for o in st.operations
+                                                     if type(o).__name__ == 'BetCollection'])) == round_id)
+                if m.over:
+                    ctx.check(not same_round, 'round-continues-though-everybody-responded', f'after {tag}')
+                else:
+                    ctx.check(same_round, 'round-ended-early', f'after {tag}')
+                continue
             k = {'f': 0, 'c': 1, 'r': 2}[act] if act else ctx.choice(f'{tag}_k', 3)
             if k == 0 and (st.can_fold() or (mode == 'C' and m.bet[m.actor()] >= m.max_bet())):
                 C.call(ctx, st.fold)
